@@ -444,6 +444,9 @@ def run(ctx: Ctx):
     # C: constructor calls (dataclass): fix is reported iff the comparison fails; Model/CallAssign.v
     from .. import callassign as ca
     ca.check_part(ctx, 150 if not ctx.thorough else 2000, "C05")
+    # dict displays (observed keys in any order, several new keys): fix makes the comparison hold, the other categories keep the value; Model/DictAssign.v
+    from .. import dictassign as da
+    da.check_part(ctx, 150 if not ctx.thorough else 2000, "C05")
     ctx.sample({"case": cases[0], "test": obs[0].get("source"), "after": obs[0].get("after")})
     ctx.sample({"case": cases[1], "observation": {k: obs[1].get(k) for k in ("results", "missing", "incorrect", "reported", "value")}})
     # lists / tuples / dict displays / constructor calls nested in each other: a run without fix keeps the value (update is value preserving) vs Model/Nest.v
@@ -487,6 +490,9 @@ def replay(ctx: Ctx, data):
     if isinstance(data.get("case"), dict) and data["case"].get("kind") == "call":
         from .. import callassign as ca
         return ca.replay_case(data["case"])
+    if isinstance(data.get("case"), dict) and data["case"].get("kind") in ("dict", "dict-orders"):
+        from .. import dictassign as da
+        return da.replay_case(data["case"])
     if "scenario" in data["case"]:
         sc = data["case"]["scenario"]
         sc["flags"] = tuple(sc["flags"])
